@@ -1,6 +1,7 @@
 --------------------------- MODULE Trace_Referral ---------------------------
 (* Trace validation for C33.  Every event is one REAL instruction executed by the in-process
-   runtime: [op, u, c, v, ok, err, panic, reset, pre, post]; pre / post are the abstract state
+   runtime: [op, u, c, v, ok, err, panic, reset, pend, pre, post]; pend[c] = the pending proposal
+   of code c implied by the accepted Transfer / Cancel / Accept operations of the history so far (driver ghost); pre / post are the abstract state
    projected from the account bytes before / after the instruction.  Monitors = the property;
    Conforms = the precise specification (Referral.tla) predicts acceptance, error and post state;
    events of one history are chained (post of one = pre of the next). *)
@@ -17,10 +18,12 @@ Next ==
                        <<"NotSelf",     MonNotSelf(e.post)>>,
                        <<"NotMutual",   MonNotMutual(e.pre, e.post)>>,
                        <<"OneOwner",    MonOneOwner(e.post)>>,
-                       <<"OwnerChange", MonOwnerChange(e.pre, a, e.ok, e.post)>> >>)
+                       <<"OwnerChange", MonOwnerChange(e.pre, e.pend, a, e.ok, e.post)>> >>)
        /\ Drift(i', ConformsNoErr(e.pre, a, e.ok, e.post), e.op)
        /\ Drift(i', e.ok \/ Apply(e.pre, a).ok \/ Apply(e.pre, a).err = e.err, "err:" \o e.op)
        /\ Drift(i', e.reset \/ i' = 1 \/ Rec[i' - 1].post = e.pre, "chain")
+       \* the account's next_owner field agrees with the proposal the history of accepted operations implies
+       /\ Drift(i', e.pend = Pending(e.pre), "pending")
 Spec == Init /\ [][Next]_i
 Done == Emit("DONE", [events |-> TLCGet("stats").diameter - 1])
 =============================================================================
